@@ -9,13 +9,13 @@ LEVEL = "model_checking"
 
 def describe(case, row):
     c = case["c"]
-    return ":%s:%s:%s:want=%s" % (c["pos"], c["v"] if not row["got"].startswith("PANIC") else "any", row["got"].split(" ")[0], case["outcome"])
+    return ":%s:%s:%s:want=%s" % (c["pos"], (c["v"] + ("" if c.get("v2", "-") == "-" else "+" + c["v2"])) if not row["got"].startswith("PANIC") else "any", row["got"].split(" ")[0], case["outcome"])
 
 
 def run(tier, seed):
     ctx = vlib.Ctx("C20", tier, seed, LEVEL)
     ctx.assumptions = [
-        "one hole per item; the reference for 'same structure' is the item parsed from the source with the value written as a literal at the hole, compared as serialized token bytes (blocks) or builder snapshot bytes (policies)",
+        "one hole per item, or two independent holes {p} {q} for the pair positions; the reference for 'same structure' is the item parsed from the source with the value written as a literal at the hole, compared as serialized token bytes (blocks) or builder snapshot bytes (policies)",
         "the macro path of parameter binding is covered by C18",
     ]
     c = {"ExportOn": True}
@@ -25,7 +25,7 @@ def run(tier, seed):
         raise vlib.ToolError("Params.tla invariant %s violated" % res.violated)
     ac.replay(ctx, res.exports["PARAM"], cmd="params-replay", sig_prefix="replay:params", describe=describe)
     return ctx.finish(
-        rule="Params.tla: 22 hole positions (fact / rule head / body terms, nested in array, set, map value, map key, expression values, nested in expression collections, "
+        rule="Params.tla: 28 one-hole positions and 14 two-hole positions (map key + its value, map key + nested value, two map entries, head + expression, term + scope, nested closures); one-hole positions: (fact / rule head / body terms, nested in array, set, map value, map key, expression values, nested in expression collections, "
              "closure bodies, rule / check / policy scopes) x 11 term values (incl. strings made of Datalog syntax, quotes, backslashes, newlines, collections, null) or 2 key "
              "algorithms x bound or not x strict or lenient setter x right or wrong parameter name; outcome table same-as-literal / refused / set-error / value-error, totality. "
              "Replay through Fact/Rule/Check/Policy::try_from + set/set_lenient/set_scope + BlockBuilder / AuthorizerBuilder add + build + print + authorizer; a bound item must "
